@@ -251,8 +251,9 @@ def c17(rng, qk):
                 s.op("B poll")
                 s.op(f"T {t} go")
             s.op(f"mark expectidle:{t}:stuck")
-            if rng.random() < 0.7:
-                live[n] = rng.choice(sinksets)
+            avail = [ss for ss in sinksets if not (set(ss) & getattr(s, "dropped", set()))]
+            if rng.random() < 0.7 and avail:
+                live[n] = rng.choice(avail)
                 s.logger(n, live[n], lvl=0)
         elif r < 0.62 and len(live) > 1:
             # asynchronous removal; the count shows when it has happened
@@ -272,9 +273,29 @@ def c17(rng, qk):
                 x = rng.choice(cand)
                 s.dropped = getattr(s, "dropped", set()) | {x}
                 s.op(f"dropsink {x}")
-        elif r < 0.74 and live:
+        elif r < 0.72 and len(live) > 1:
+            # log + remove inside the window of an idle poll (between its emptiness check and its clean-up steps)
             n = rng.choice(sorted(live))
-            s.op(f"logger {n} sinks={','.join(live[n])} lvl=0")       # create_or_get is idempotent
+            for t in sorted(s.alive):
+                s.op(f"T {t} go")
+            s.op("B drain")
+            s.op("B pollf")
+            for _ in range(rng.randint(0, 4)):
+                s.op("B go")
+            s.log(rng.choice(sorted(s.alive)), n, pad=rng.randint(0, 12))
+            s.op(f"remove {n}")
+            del live[n]
+            s.op("B go")
+            s.op("B go")
+            s.op("B drain")
+            s.op("B poll")
+            s.op("q loggers")
+        elif r < 0.76 and live:
+            n = rng.choice(sorted(live))
+            if set(live[n]) & getattr(s, "dropped", set()):
+                s.op(f"getlogger {n}")
+            else:
+                s.op(f"logger {n} sinks={','.join(live[n])} lvl=0")       # create_or_get is idempotent
         elif r < 0.80:
             s.op(f"T {rng.choice(sorted(s.alive))} go")
         else:
@@ -317,13 +338,18 @@ def c20(rng, qk, many=0):
                 for _ in range(rng.randint(2, 5)):
                     s.log(t, "L0", pad=min(cap, mx - qsys.HDR - 8))
                 s.op(f"T {t} shrink {rng.choice([cap // 2, cap, cap * 2, mx // 2])}")
-            elif r < 0.78 and s.alive:
+            elif r < 0.74 and s.alive:
+                s.op(f"T {rng.choice(sorted(s.alive))} flush L0")      # a flush is also a context clean-up point
+            elif r < 0.80 and s.alive:
                 s.op(f"T {rng.choice(sorted(s.alive))} go")
-            elif r < 0.86:
+            elif r < 0.87:
                 s.op("B go")
             else:
                 s.backend_some(fine_prob=0.4)
-    s.finish(final=True, ctx=True)
+    if not many and rng.random() < 0.35:
+        s.finish_by_exit(ctx=False)      # the backend's own exit drain instead of polling to idle
+    else:
+        s.finish(final=True, ctx=True)
     return s.text(), s.grace
 
 
